@@ -338,7 +338,7 @@ def _detrend_long(case, ctx):
     rng = np.random.default_rng([case["seed"], 44])
     for n in case["ns"]:
         t = np.arange(n, dtype=np.float64)
-        slope = float(rng.choice([1e-3, -2e-5, 0.0]))
+        slope = float([1e-3, -7e-4, 2e-3][n % 3])     # a real trend: with a flat series a wrong normalisation of the slope goes unnoticed
         y = (slope * t - 3.0 + rng.normal(size=n)).astype(np.float32)
         ctx.evaluated(); ctx.count("detrend"); ctx.count("detrend_long_series")
         one = {"kind": "detrend_long", "seed": case["seed"], "ns": [n]}
